@@ -531,7 +531,7 @@ def agg_case(draw):
         hop = draw(st.sampled_from(["avg", "sum", "max", "min", "count"]))
         having = (hop, None if hop == "count" else draw(st.sampled_from(meas)), draw(st.sampled_from([">", ">=", "<", "="])),
                   ("lit", "Integer", draw(st.sampled_from([0, 1, 2]))) if hop == "count" else draw(literal("Number")))
-    if op == "count":
+    if op == "count" or (having is not None and having[0] == "count"):
         # count semantics with null measures are not settled by the offline sources: count only over complete datapoints
         ci = dict(ci, rows={"DS_1": [dict(r, **{m: (r[m] if r[m] is not None else "1") for m in meas}) for r in ci["rows"]["DS_1"]]})
     if draw(st.integers(0, 2)) == 0 and mode != "none":
